@@ -215,3 +215,11 @@ package oned
 //@   modifies nothing
 //@   loop 0: invariant length == len(encoded) && 0 <= i && i <= length && fresh(decoded)
 //@   loop 0: decreases length - i
+
+// ---------------------------------------------------------------- upside-down rows (C09): the second attempt on a row reads the reversed row
+// (BitArray.Reverse is proved to reverse the bits, C16); only a result found on that attempt is marked with the ORIENTATION metadata
+//@ func (this *OneDReader) doDecode(image *gozxing.BinaryBitmap, hints map[gozxing.DecodeHintType]interface{}) (r *gozxing.Result, e error)
+//@   property C09
+//@   opt check=asserts
+//@   assert call(Reverse,0): attempt == 1
+//@   assert call(PutMetadata,0): attempt == 1 && e == nil && typeis(arg2, "int") && arg1 == gozxing.ResultMetadataType_ORIENTATION
